@@ -99,16 +99,42 @@ class ThreadingShim:
 
 
 SHIM = ThreadingShim()
+_REAL_LOCK_TYPES = (type(_real_threading.Lock()), type(_real_threading.RLock()))
 
 
 def install_shim():
-    import cotengra.presets
-    import cotengra.reusable
-    import cotengra.utils
+    """Every loaded cotengra module that holds the ``threading`` module (or took Lock / RLock / get_ident from it)
+    gets the shim instead: a real lock held by a parked simulated thread would block the baton holder for good."""
+    import sys
 
-    for m in (cotengra.presets, cotengra.reusable, cotengra.utils):
-        if getattr(m, "threading", None) is not SHIM:
+    import cotengra.presets  # noqa: F401
+    import cotengra.reusable  # noqa: F401
+    import cotengra.utils  # noqa: F401
+
+    for name, m in list(sys.modules.items()):
+        if m is None or not (name == "cotengra" or name.startswith("cotengra.")):
+            continue
+        d = getattr(m, "__dict__", {})
+        if d.get("threading") is _real_threading:
             m.threading = SHIM
+        if d.get("Lock") is _real_threading.Lock:
+            m.Lock = SHIM.Lock
+        if d.get("RLock") is _real_threading.RLock:
+            m.RLock = SHIM.RLock
+        if d.get("get_ident") is _real_threading.get_ident:
+            m.get_ident = SHIM.get_ident
+        # locks that already exist (made at import time, at module level or on module-level objects such as the preset
+        # optimizers) are swapped for simulated ones too
+        for k, v in list(d.items()):
+            if isinstance(v, _REAL_LOCK_TYPES):
+                setattr(m, k, SimLock(isinstance(v, _REAL_LOCK_TYPES[1])))
+            elif getattr(type(v), "__module__", "").startswith("cotengra") and hasattr(v, "__dict__") and not isinstance(v, type):
+                for k2, v2 in list(vars(v).items()):
+                    if isinstance(v2, _REAL_LOCK_TYPES):
+                        try:
+                            setattr(v, k2, SimLock(isinstance(v2, _REAL_LOCK_TYPES[1])))
+                        except Exception:
+                            pass
 
 
 # -- choosers -----------------------------------------------------------------
